@@ -577,6 +577,13 @@ def run(ctx):
             o2["shared_with"] = "C11.R5"
             r8.obligations.append(o2)
     rules.append(r8)
+    # the or_other block of the row loop, evaluated for select rows with and without logic cells (shared with C09.R6)
+    from . import c09 as _c09o
+    from .c08 import _take as _take_o
+    r_oo = Rule("C04", "C04.R9", "every or_other select gets its own companion question", floor=6,
+                necessary="a select without its <name>_other node loses the free-text answer")
+    _take_o(r_oo, _c09o.run(ctx), "C09.R6", lambda c: c.startswith("or_other["))
+    rules.append(r_oo)
     return rules
 
 
